@@ -36,7 +36,7 @@ def setup(c):
 def cases(c):
     rng = c.rng('cases')
     out = []
-    n = 6 if c.tier == 'quick' else 220
+    n = 40 if c.tier == 'quick' else 400
     for cls in E.CLASSES:
         rels = ['shift', 'conj'] + (['half'] if cls in HALF else []) + (['reverse'] if cls in REVERSIBLE else [])
         for rel in rels:
@@ -49,7 +49,7 @@ def cases(c):
                     NFFT += (NFFT + j // 2) % 2           # alternate parity
                 m = int(gen.pick(rng, [1, 5, -7, NFFT // 2, NFFT - 1, int(rng.integers(-NFFT, NFFT))]))
                 out.append({'rel': rel, 'cls': cls, 'p': params, 'N': N, 'NFFT': NFFT, 'm': m,
-                            'kind': gen.pick(rng, ['noise', 'tones', 'ar']), 'fs': gen.pick(rng, [1.0, 2.0, 100.0]),
+                            'kind': gen.pick(rng, ['noise', 'tones', 'ar', 'trend']), 'fs': gen.pick(rng, [1.0, 2.0, 100.0]),
                             'cplx': 0 if rel == 'half' else (1 if rel in ('shift', 'conj') else int(rng.integers(0, 2))),
                             'j': j})
     return out
